@@ -206,6 +206,83 @@ pub fn generate(cfg: &Cfg) -> Vec<String> {
                 }
                 push(&mut rng, &m);
             }
+            // ragged matrices whose deviations cancel out: one token moved from the end of a line to the
+            // end of another (total count unchanged), sometimes twice
+            for _ in 0..60 * scale {
+                let nrec = rng.range(1, 2);
+                let base = gen_file(&mut rng, fmt, alpha, nrec, false);
+                let text = String::from_utf8_lossy(&base).to_string();
+                let mut lines: Vec<String> = text.split_inclusive('\n').map(|l| l.to_string()).collect();
+                for _ in 0..rng.range(1, 2) {
+                    let cand: Vec<usize> = (0..lines.len()).filter(|&i| lines[i].split_whitespace().count() >= 3).collect();
+                    if cand.len() >= 2 {
+                        let i = *rng.pick(&cand);
+                        let j = *rng.pick(&cand);
+                        if i != j {
+                            let eol_i: String = lines[i].chars().rev().take_while(|c| *c == '\n' || *c == '\r').collect::<String>().chars().rev().collect();
+                            let body_i = lines[i].trim_end_matches(|c| c == '\n' || c == '\r').to_string();
+                            let eol_j: String = lines[j].chars().rev().take_while(|c| *c == '\n' || *c == '\r').collect::<String>().chars().rev().collect();
+                            let body_j = lines[j].trim_end_matches(|c| c == '\n' || c == '\r').to_string();
+                            // keep a closing bracket (JASPAR 2016) at the end of both lines
+                            let (bi, close_i) = match body_i.trim_end().strip_suffix(']') { Some(b) => (b.trim_end().to_string(), " ]"), None => (body_i.trim_end().to_string(), "") };
+                            let (bj, close_j) = match body_j.trim_end().strip_suffix(']') { Some(b) => (b.trim_end().to_string(), " ]"), None => (body_j.trim_end().to_string(), "") };
+                            if let Some(pos) = bi.rfind(|c: char| c == ' ' || c == '\t') {
+                                let tok = bi[pos + 1..].to_string();
+                                let sep = if bi.contains('\t') { "\t" } else { " " };
+                                lines[i] = format!("{}{}{}", &bi[..pos], close_i, eol_i);
+                                lines[j] = format!("{}{}{}{}{}", bj, sep, tok, close_j, eol_j);
+                            }
+                        }
+                    }
+                }
+                let m: Vec<u8> = lines.concat().into_bytes();
+                push(&mut rng, &m);
+            }
+            // a wide record followed by narrow ones (the reader's offset is far from 0 when the input
+            // ends), read to the end and beyond
+            if fmt == "jaspar" || fmt == "jaspar16" || fmt == "uniprobe" {
+                for _ in 0..12 * scale {
+                    let wide = rng.range(40, 90);
+                    let mut text = String::new();
+                    let mut rec = |rng: &mut Rng, name: &str, w: usize, text: &mut String| {
+                        let letters = ["A", "C", "G", "T"];
+                        match fmt {
+                            "jaspar" => {
+                                text.push_str(&format!(">{}\n", name));
+                                for _ in 0..4 {
+                                    let row: Vec<String> = (0..w).map(|_| rng.below(50).to_string()).collect();
+                                    text.push_str(&row.join(" "));
+                                    text.push('\n');
+                                }
+                            }
+                            "jaspar16" => {
+                                text.push_str(&format!(">{} {}\n", name, name));
+                                for l in letters {
+                                    let row: Vec<String> = (0..w).map(|_| rng.below(50).to_string()).collect();
+                                    text.push_str(&format!("{} [ {} ]\n", l, row.join(" ")));
+                                }
+                            }
+                            _ => {
+                                text.push_str(&format!("{}\n", name));
+                                for l in letters {
+                                    let row: Vec<String> = (0..w).map(|_| format!("0.{}", rng.below(99))).collect();
+                                    text.push_str(&format!("{}:\t{}\n", l, row.join("\t")));
+                                }
+                                text.push('\n');
+                            }
+                        }
+                    };
+                    rec(&mut rng, "wide", wide, &mut text);
+                    for k in 0..rng.range(1, 3) {
+                        let w = rng.range(1, 4);
+                        rec(&mut rng, &format!("n{}", k), w, &mut text);
+                    }
+                    let bytes = text.into_bytes();
+                    push(&mut rng, &bytes);
+                    // and through a one-shot stream (whole file in one chunk): no compaction happens
+                    cases.push(case_line("c15", fmt, alpha, &vec![], &bytes));
+                }
+            }
             // VALID multi-byte UTF-8 at the positions byte-offset arithmetic gets wrong: the first and
             // the second character of a line (any line of the file), and anywhere
             for _ in 0..60 * scale {
